@@ -127,6 +127,14 @@ def _vi_l1_inv(L):
             ('groups-collected', lall(acc, lambda j, e: t.eq(e, t.pymod(t.select(o0.buf, t.add(o0.pos, j)), I(128)))))]
 
 
+def _bytes_left(L):
+    """termination measure of a scanning loop: the bytes left in the stream (no measure under the adversarial model)"""
+    o = L.obj('stream')
+    if getattr(o, 'model', None) == 'adv' or o.len is None:
+        return None
+    return t.sub(t.imax(o.len, o.pos), o.pos)
+
+
 def _vi_l2_inv(L):
     pre = L.extra['pre']
     o0 = pre.obj('stream')
@@ -148,7 +156,7 @@ fcontract('VarInt', '_parse', [
     Case('truncated', 'raise', lambda pre: t.lt(leb_scan(S_(pre)), t.ZERO),
          ensures=lambda pre, post: [('running-out-of-bytes-is-StreamError', stream_error(post), ('C06', 'C03'))] + generic_raise(pre, post),
          modifies=['stream']),
-], loops={'while True': LoopSpec(_vi_l1_inv, variant=None, tags=T, havoc_kinds={}, modifies=(), generic_ok=True),
+], loops={'while True': LoopSpec(_vi_l1_inv, variant=_bytes_left, variant_tags=('C06',), tags=T, havoc_kinds={}, modifies=(), generic_ok=True),
           'for b in reversed(acc)': LoopSpec(_vi_l2_inv, tags=T, modifies=(), generic_ok=True)})
 
 
